@@ -182,10 +182,17 @@ func runC09(c *Ctx) {
 				pert.Barrier()
 				base := sched.LibraryGoroutines()
 				for cycle := 0; cycle < 3; cycle++ {
-					j, err := jd.mk(ctx, src, dst)
+					// the constructor's context only carries the logger: ending it
+					// after construction (odd cycles) changes nothing
+					jctx, jcancel := context.WithCancel(ctx)
+					defer jcancel()
+					j, err := jd.mk(jctx, src, dst)
 					if err != nil {
 						problems = append(problems, "creating the join failed: "+err.Error())
 						return
+					}
+					if cycle%2 == 1 {
+						jcancel()
 					}
 					js, err := j.subscribe()
 					if err == nil {
@@ -349,10 +356,16 @@ func runC09(c *Ctx) {
 			pert.Barrier()
 			base := sched.LibraryGoroutines()
 			for cycle := 0; cycle < 3; cycle++ {
-				jc, err := join.IngressPods(ctx, ing.raw.(tingress.Controller), svc.raw.(tservice.Controller), pod.raw.(tpod.Controller))
+				jctx, jcancel := context.WithCancel(ctx)
+				defer jcancel()
+				jc, err := join.IngressPods(jctx, ing.raw.(tingress.Controller), svc.raw.(tservice.Controller), pod.raw.(tpod.Controller))
 				if err != nil {
 					problems = append(problems, "IngressPods failed: "+err.Error())
 					return
+				}
+				if cycle%2 == 1 {
+					// the constructor's context only carries the logger
+					jcancel()
 				}
 				j := wrap_pod(jc)
 				verify := func(stage string) {
@@ -406,6 +419,6 @@ func runC09(c *Ctx) {
 		}
 		c.DistinctCase(fmt.Sprint("IngressPods", seed))
 	}
-	c.Rep.Rule = "all eight generated joins and the double join IngressPods over fake API servers for source and destination (typed base controllers, virtual time, perturbation): source histories (sources appear, change selector, disappear) and destination histories (labels and namespaces change) at arbitrary relative timing; three create/use/close cycles of the join over long-lived base controllers. At barriers: join cache = destination objects selected by a current source object (ownership predicate written directly; also vs the extracted constructor + accept), ready only after source and destination (slow source list variant), Close stops everything the join created (goroutine inventory back to baseline each cycle) and leaves the bases running and current. Non-trivial = every (join, scenario)."
+	c.Rep.Rule = "all eight generated joins and the double join IngressPods over fake API servers for source and destination (typed base controllers, virtual time, perturbation): source histories (sources appear, change selector, disappear) and destination histories (labels and namespaces change) at arbitrary relative timing; three create/use/close cycles of the join over long-lived base controllers (in the second cycle the context given to the constructor is cancelled right after construction: it only carries the logger). At barriers: join cache = destination objects selected by a current source object (ownership predicate written directly; also vs the extracted constructor + accept), ready only after source and destination (slow source list variant), Close stops everything the join created (goroutine inventory back to baseline each cycle) and leaves the bases running and current. Non-trivial = every (join, scenario)."
 	c.Rep.Stats["runs"] = runs
 }
